@@ -99,7 +99,9 @@ func (m *Monitor) ResetHealthCheck(config *hc.HealthCheck) error {
 	if err := config.Validate(); err != nil {
 		return err
 	}
-	if !config.Checker.Equal(m.config.Checker) {
+	// NOTE: The checker is optional (the TCP checker is used then), Equal
+	// can't be called on a nil oneof.
+	if config.Checker == nil || !config.Checker.Equal(m.config.Checker) {
 		checker, err := newChecker(config)
 		if err != nil {
 			m.checker = tcp.NewChecker()
